@@ -58,6 +58,21 @@ def corpus():
            _send([[0, 0], [1, 0]], api="offset_commit", group=1, coord_default=[0, 3, 103, 9092]),
            _send([[0, 0], [1, 0]], api="offset_fetch", group=1, coord_default=[0, 3, 103, 9092], errs={"0:0": 16}),
            {"op": "sendcoord", "group": 2, "tag": 7, "plan": {"coord_default": [0, 2, 102, 9092]}}]),
+        # a broker that already has a client is re-addressed (port only / host only), its connection is lost, request:
+        # the new connection must go to the address the latest response gave
+        H([{"op": "meta", "topics": [], "plan": {"metas": [m1]}}, _send([[0, 0], [1, 0]], api="direct"),
+           {"op": "meta", "topics": [1], "plan": {"metas": [_meta([[2, 102, 9093]], [[0, 1, [[0, 0, 2]]]])]}},
+           {"op": "drop", "node": 2}, _send([[0, 0], [1, 0]], api="fetch", live_addrs=[[101, 9092], [102, 9093]])]),
+        H([{"op": "meta", "topics": [], "plan": {"metas": [m1]}}, _send([[0, 0], [1, 0]], api="direct"),
+           {"op": "meta", "topics": [], "plan": {"metas": [_meta([[1, 101, 9092], [2, 112, 9092]], [[0, 1, [[0, 0, 2]]], [0, 0, [[0, 0, 2]]]])]}},
+           {"op": "drop", "node": 2}, _send([[0, 0], [1, 0]], api="offset", live_addrs=[[101, 9092], [112, 9092]])]),
+        # a KNOWN topic is reported with an error and no partitions: nothing may be sent to its old leader any more
+        H([{"op": "meta", "topics": [], "plan": {"metas": [m1]}}, _send([[0, 0], [1, 0]], api="direct"),
+           {"op": "meta", "topics": [0], "plan": {"metas": [_meta([[1, 101, 9092], [2, 102, 9092]], [[5, 0, []]])]}},
+           _send([[1, 0], [0, 0]], api="fetch", meta_default=_meta([[1, 101, 9092], [2, 102, 9092]], [[5, 0, []]]))]),
+        H([{"op": "meta", "topics": [], "plan": {"metas": [M3]}}, _send([[0, 1], [1, 0]], api="direct"),
+           {"op": "meta", "topics": [1], "plan": {"metas": [_meta([[1, 101, 9092], [2, 102, 9092], [3, 103, 9092]], [[3, 1, []]])]}},
+           _send([[0, 1], [1, 0]], api="produce", meta_default=_meta([[1, 101, 9092]], [[3, 1, []]]))]),
         # every known broker silent, bootstrap refused then answered / all refused
         H([{"op": "meta", "topics": [], "plan": {"metas": [M3]}}, _send([[0, 0], [0, 1]], api="direct"),
            {"op": "meta", "topics": [0], "plan": {"metas": [M3], "bad": {"1": "silent", "2": "silent", "3": "silent"}, "boot": [0, 1]}},
